@@ -20,7 +20,8 @@ func hashMPIsBN(h hash.Hash, magic byte, mpis ...*big.Int) *big.Int {
 }
 
 func bytesToUint16(d []byte) (uint16, error) {
-	res, e := strconv.Atoi(string(d))
+	// exactly an unsigned 16 bit decimal number: no sign, no wrap-around
+	res, e := strconv.ParseUint(string(d), 10, 16)
 	return uint16(res), e
 }
 
